@@ -147,7 +147,7 @@ def check(kind, case, rec):
     rec.label("only_surface" if case["only_surface"] else "all-faces")
 
 
-FAMILIES = [Family("boundary", KINDS, check, strategy=strategy, n={"quick": 60, "thorough": 1500}, chunk=15)]
+FAMILIES = [Family("boundary", KINDS, check, strategy=strategy, n={"quick": 60, "thorough": 6000}, chunk=15)]
 
 LEVEL_TEXT = (
     "All six boundary cell types enumerated; Hypothesis draws distorted / curved multi-cell meshes, masks and flags; "
